@@ -13,6 +13,8 @@ pub fn prop() -> HistProp {
     rc.known.partial_create_nospace = crate::run::known_active("C03", "partial-create-out-of-space");
     let mut gc = GenCfg::mixed();
     gc.populate_pct = 10;
+    // a third of the sessions keep access dates (the option rewrites directory entries on reads and listings)
+    gc.access_date = vec![false, false, true];
     HistProp {
         id: "C03",
         level: "exploration",
